@@ -4,7 +4,7 @@ from .. import sweeps
 from ..common import Check, hx, tags_tok
 from .. import jsongen, gen
 
-THEOREMS = ['verify_iff', 'verify_total', 'signNew_verifies', 'id_tamper_detected', 'content_tamper_detected', 'canon_determines_fields', 'field_tamper_detected', 'escape_constants_from_source']
+THEOREMS = ['verify_iff', 'verify_total', 'signNew_verifies', 'id_tamper_detected', 'content_tamper_detected', 'canon_determines_fields', 'field_tamper_detected', 'escape_constants_from_source', 'safe_char_from_source']
 SK = '0000000000000000000000000000000000000000000000000000000000000003'
 
 
